@@ -264,9 +264,20 @@ func (f *frame) havocAll(st *State, reach string, written map[*ssa.Alloc]bool) {
 			keeps = append(keeps, keep{lc.heap, lc.loc, e.heapByName(st, lc.heap)})
 		}
 	}
+	// ghost sets of visited/marked items only grow and are not reachable from
+	// code that does not name the traversal function: they survive a havoc
+	ghosts := map[string]string{}
+	for n, t := range st.heaps {
+		if strings.HasPrefix(n, "G_") && n != mapLenHeap {
+			ghosts[n] = t
+		}
+	}
 	e.epochN++
 	st.epoch = e.epochN
 	st.heaps = map[string]string{}
+	for n, t := range ghosts {
+		st.heaps[n] = t
+	}
 	for _, k := range keeps {
 		nh := e.heapByName(st, k.heap)
 		e.assume(reach, fmt.Sprintf("(= (select %s %s) (select %s %s))", nh, k.loc, k.old, k.loc))
@@ -676,9 +687,38 @@ func (f *frame) loopModSet(h *ssa.BasicBlock, be map[[2]int]bool) (map[string]*m
 					}
 					callee := v.Call.StaticCallee()
 					if callee == nil {
+						if pv, ok := f.vals[v.Call.Value]; ok && depth == 0 {
+							if pv.uf != "" {
+								continue // pure function parameter
+							}
+							if pv.cb != "" {
+								n := "G_" + pv.cb
+								if mod[n] == nil {
+									mod[n] = &modInfo{cells: map[string]*cellMod{}}
+								}
+								mod[n].whole = true
+								continue
+							}
+						}
 						// a closure held in a local cell: resolved at execution time; be conservative
 						all = true
 						continue
+					}
+					if rc := f.rootCtr(); rc != nil {
+						ghost := false
+						for cn, set := range rc.GhostCalls {
+							if shortFn(callee) == cn || callee.Name() == cn {
+								n := "G_" + set
+								if mod[n] == nil {
+									mod[n] = &modInfo{cells: map[string]*cellMod{}}
+								}
+								mod[n].whole = true
+								ghost = true
+							}
+						}
+						if ghost {
+							continue
+						}
 					}
 					name := callee.String()
 					if isPutUint(name) {
